@@ -28,6 +28,10 @@ NEAR_MISSES = ['12abc', '1.2.3', '1e', '--1', '0x1F', '1,5', '', ' ', '\t', 'inf
 INT_NEAR_MISSES = ['12abc', '1.5', '1e5', '', ' ', '--1', '0x1F', '1,5', 'inf', 'nan', '1 2', 'abc', '.', '-', '1.0', 'z']
 
 _m = {}
+# an integral number as the library hands it to a script (mathFloor / mathCeil / mathRound / numberParseInt / jsonParse results need not be the
+# same host type as a literal): it must print and re-parse like the literal of the same value
+VIAS = {'floor': 'x = mathFloor(x)', 'ceil': 'x = mathCeil(x)', 'parseInt': 'x = numberParseInt(digits)', 'jsonParse': 'x = jsonParse(digits)',
+        'abs': 'x = mathAbs(x)', 'max': 'x = mathMax(x, x)', 'arith': 'x = mathFloor(x) + 0'}
 
 
 def models():
@@ -42,16 +46,27 @@ def models():
             'back = numberParseFloat(r1)',
             'return arrayNew(r1, r2, r3, r4, r5, back)',
         ]))
+        body = impl.bs.parse_script('return 0')       # (placeholder: the variants below share the routes)
+        del body
+        for via, first in VIAS.items():
+            _m['routes:' + via] = impl.bs.parse_script(first + '\n' + '\n'.join([
+                "r1 = '' + x", "r2 = x + ''", 'r3 = stringNew(x)', "r4 = arrayJoin(arrayNew(x), ',')", "r5 = arrayJoin(arrayNew(x, x), ',')", 'systemLog(x)',
+                'back = numberParseFloat(r1)', 'return arrayNew(r1, r2, r3, r4, r5, back)']))
         _m['pf'] = impl.bs.parse_script('return numberParseFloat(s)')
         _m['pi'] = impl.bs.parse_script('return numberParseInt(s)')
         _m['pir'] = impl.bs.parse_script('return numberParseInt(s, r)')
     return _m
 
 
-def check_number(x):
-    d = {'kind': 'number', 'x': enc(x)}
+def check_number(x, via=None):
+    d = {'kind': 'number', 'x': enc(x), 'via': via}
     log = []
-    out = impl.run_model(models()['routes'], {'x': x}, log, debug=True)
+    if via is None:
+        out = impl.run_model(models()['routes'], {'x': x}, log, debug=True)
+    else:
+        if via == 'abs' and x < 0:
+            via = d['via'] = 'max'
+        out = impl.run_model(models()['routes:' + via], {'x': x, 'digits': '%d' % int(x)}, log, debug=True)
     if out.kind != 'ok' or not isinstance(out.value, list):
         raise Violation('stringifying %r failed: %r' % (x, out), d, 'route-fails')
     r1, r2, r3, r4, r5, back = out.value
@@ -62,6 +77,8 @@ def check_number(x):
     d['text'] = t
     if back is None or isinstance(back, bool) or not isinstance(back, (int, float)) or back != x:
         raise Violation('numberParseFloat(%r) = %r, expected %r' % (t, back, x), d, 'parse-back')
+    if via is not None and len(t) > 40 and re.fullmatch(r'-?\d+', t) and int(t) == int(x):
+        return t        # (a long digit string that denotes x exactly: fine - and it parsed back to x above)
     if float(x) == int(float(x)) and abs(x) < 1e16:
         if not re.fullmatch(r'-?\d+', t):
             raise Violation('integral %r prints as %r' % (x, t), d, 'integral-fraction')
@@ -202,6 +219,14 @@ def run_shard(ctx, spec):
                 ctx.violation(v)
                 t = None
             ctx.case(digest(repr(x)), nontrivial_number(x), ['boundary', 'exp-form' if t and 'e' in t else 'plain-form'], {'x': x, 'text': t})
+            if float(x).is_integer():
+                for via in VIAS:
+                    try:
+                        t = check_number(x, via)
+                    except Violation as v:
+                        ctx.violation(v)
+                        continue
+                    ctx.case(digest(repr(x) + via), nontrivial_number(x), ['boundary', 'via-library:' + via], {'x': x, 'text': t, 'via': via})
         return
     if spec['kind'] == 'nearmiss':
         for s in sorted(set(NEAR_MISSES + INT_NEAR_MISSES)):
@@ -213,14 +238,17 @@ def run_shard(ctx, spec):
                 ctx.case(digest('nm' + s + repr(radix)), True, ['near-miss'], {'s': s, 'radix': radix})
         return
     if spec['kind'] == 'numbers':
-        def prop(x):
-            t = check_number(x)
-            ctx.case(digest(repr(x)), nontrivial_number(x),
+        def prop(x, via):
+            via = via if float(x).is_integer() else None
+            t = check_number(x, via)
+            ctx.case(digest(repr(x) + str(via)), nontrivial_number(x),
                      ['int-spelling' if isinstance(x, int) else 'float', 'exp-form' if 'e' in t else 'plain-form',
-                      'subnormal' if 0 < abs(x) < 2.3e-308 else 'normal'], {'x': x, 'text': t})
-        num = st.one_of(gv.finite_doubles, gv.finite_doubles, st.integers(-(2 ** 53) + 1, 2 ** 53 - 1),
+                      'subnormal' if 0 < abs(x) < 2.3e-308 else 'normal'] + (['via-library:' + via] if via else []), {'x': x, 'text': t, 'via': via})
+        integral_doubles = st.one_of(st.integers(-(2 ** 53), 2 ** 53).map(float), st.integers(2 ** 53, 10 ** 16).map(float), st.integers(10 ** 16, 10 ** 22).map(float),
+                                     st.integers(0, 1023).flatmap(lambda e: st.integers(2 ** 52, 2 ** 53 - 1).map(lambda m: float(m) * 2.0 ** (e - 52))))
+        num = st.one_of(integral_doubles, gv.finite_doubles, gv.finite_doubles, st.integers(-(2 ** 53) + 1, 2 ** 53 - 1),
                         st.integers(0, 2 ** 64 - 1).map(lambda b: struct.unpack('<d', struct.pack('<Q', b))[0]).filter(math.isfinite))
-        run_hypothesis(ctx, prop, [num], spec['n'], salt=spec['k'])
+        run_hypothesis(ctx, prop, [num, st.sampled_from([None, None] + sorted(VIAS))], spec['n'], salt=spec['k'])
         return
 
     if spec['kind'] == 'joins':
@@ -244,6 +272,6 @@ def replay(detail):
     if detail.get('kind') == 'join':
         check_long_join(dec(detail['xs']))
     elif detail.get('kind') == 'number':
-        check_number(dec(detail['x']))
+        check_number(dec(detail['x']), detail.get('via'))
     else:
         check_parse(detail['s'], detail.get('radix'))
